@@ -948,7 +948,7 @@ def run(ctx):
     n = 30000 if ctx.tier == "quick" else 300000
     r = C.Rng(ctx.seed, "c13/main")
     explore(ctx, h, drv, fixed_cases() + gen_cases(r, n), "main")
-    if ctx.proof_broken or ctx.corr_broken:
+    if (ctx.proof_broken or ctx.corr_broken) and not ctx.violations:
         ctx.log("obligation or correspondence broken: widening the search for a failing input")
         for i in range(3):
             explore(ctx, h, drv, gen_cases(C.Rng(ctx.seed, "c13/search%d" % i), 6000), "search%d" % i)
